@@ -247,7 +247,9 @@ def real_runs(ctx, insts, traces, trace_meta, scr):
                 calc = run_calc(d / "settings.yaml")
             except Exception as ex:
                 raise MachineryError(f"examples/{name} does not run: {ex!r}")
-            fm = calc._full_modulus
+            from cv.e2e import full_modulus_of, phonon_parts
+            fm = full_modulus_of(calc)
+            used_iso, used_adi = phonon_parts(calc, fm)
             strain = fm.get_axial_strains()
             # the code's own task equality is numpy.allclose (rtol 1e-5): fractions closer than 1e-6 are "equal" for it, fractions further
             # apart than 1e-3 are certainly different; anything between is left alone here
@@ -285,7 +287,7 @@ def real_runs(ctx, insts, traces, trace_meta, scr):
             # the same request on the same calculator gives the values the calculation itself used
             scale = max(float(numpy.max(numpy.abs(numpy.nan_to_num(numpy.asarray(v))))) for v in iso.values()) or 1.0
             for k in keys:
-                if relerr(iso[k], fm._isothermal_phonon_contribution[k], scale) > 1e-9 or relerr(adi[k], fm._adiabatic_phonon_contribution[k], scale) > 1e-9:
+                if relerr(iso[k], used_iso[k], scale) > 1e-9 or relerr(adi[k], used_adi[k], scale) > 1e-9:
                     ctx.violation(f"examples/{name}: c{k.voigt[0]}{k.voigt[1]} of a second task list on the same calculator differs from the "
                                   f"value the calculation used", {**rep, "key": list(k.voigt)}, {**sig, "clause": "request_independent"})
                     break
